@@ -1,0 +1,13 @@
+//go:build !verif
+
+package graphql
+
+const (
+	VerifSiteCollectInto = iota
+	VerifSitePlanMergedSelectionsForType
+	VerifSiteFindConflict
+	VerifSiteFieldsAndFragment
+	VerifSiteBetweenFragments
+)
+
+func verifCount(site int) {}
